@@ -175,31 +175,47 @@ def _request_records_once(rep, repo, st):
 def _report_before_reset(rep, repo, st):
     gr = st.func('get_and_reset_stats_dict')
     cfg_gr = cfg_of(gr)
-    rep_st = [s for s in stmts_of(gr.node) if isinstance(s, ast.Assign) and isinstance(s.value, ast.Call)
-              and call_name(s.value) == 'get_stats_dict']
-    reset_st = [stmt_of(st, c) for c in walk_body(gr.node) if isinstance(c, ast.Call) and call_tail(c) == 'reset']
-    ok = len(rep_st) == 1 and len(reset_st) >= 1 and \
-        all(cfg_gr.must_pass(cfg_gr.nodes_of(rep_st[0]), cfg_gr.entry, cfg_gr.nodes_of(r)) for r in reset_st) and \
-        not (set(cfg_gr.nodes_of(rep_st[0])) & cfg_gr.reach(cfg_gr.nodes_of_all(reset_st), include_src=False))
+    Lg = diffcon.Locals(gr.node, cfg_gr)
+    # statements that compute the report / reset the counters (wherever the calls sit in them)
+    rep_st = _uniq(stmt_of(st, c) for c in walk_body(gr.node) if isinstance(c, ast.Call) and call_name(c) == 'get_stats_dict')
+    reset_st = _uniq(stmt_of(st, c) for c in walk_body(gr.node) if isinstance(c, ast.Call) and call_tail(c) == 'reset')
+    if not rep_st and not reset_st:
+        raise AnalysisError('get_and_reset_stats_dict: neither a get_stats_dict(...) nor a reset() call found')
+    rep_nodes = cfg_gr.nodes_of_all(rep_st)
+    ok = len(rep_st) >= 1 and len(reset_st) >= 1 and \
+        all(cfg_gr.must_pass(rep_nodes, cfg_gr.entry, cfg_gr.nodes_of(r)) for r in reset_st) and \
+        not (set(rep_nodes) & cfg_gr.reach(cfg_gr.nodes_of_all(reset_st), include_src=False))
     rep.check('R19.b', fkey(gr, 'report before reset'), ok, 'totals are collected before the counters are reset' if ok else
               'reset() can run before the report is computed', st, gr.node)
-    rv = norm(rep_st[0].targets[0]) if rep_st else None
+    # what is returned is that report: the local it was bound to, or a dict built over it (dict(report, reset=True))
     rets = returns_of(gr)
-    ok = bool(rets) and all(norm(r.value) == rv for r in rets)
+    ok = bool(rets)
+    for r in rets:
+        via = []
+        v = Lg.resolve(r.value, r, via=via) if r.value is not None else None
+        src = [s_ for s_ in via + [r] if s_ in rep_st]
+        ok = ok and v is not None and bool(src) and any(isinstance(c, ast.Call) and call_name(c) == 'get_stats_dict' for c in ast.walk(v))
     rep.check('R19.b', fkey(gr, 'returns report'), ok, 'the pre-reset report is what is returned' if ok else
               'the returned value is not the pre-reset report', st, gr.node)
     ok = bool(reset_st) and cfg_gr.must_pass(cfg_gr.nodes_of_all(reset_st), cfg_gr.entry, cfg_gr.exit)
     rep.check('R19.b', fkey(gr, 'reset on every path'), ok, 'reset() runs on every normal path' if ok else
               'a normal path skips reset()', st, gr.node)
     rs = st.func('StatsMiddleware.reset')
-    asg = [s for s in stmts_of(rs.node) if isinstance(s, ast.Assign) and norm(s.targets[0]) == 'self.route_hits']
-    ok = len(asg) == 1 and isinstance(asg[0].value, (ast.Call, ast.Dict)) and \
-        cfg_of(rs).must_pass(cfg_of(rs).nodes_of(asg[0]), cfg_of(rs).entry, cfg_of(rs).exit)
+    cfg_rs = cfg_of(rs)
+    Ls = diffcon.Locals(rs.node, cfg_rs)
+    asg = [(s, v) for s in stmts_of(rs.node) for t, v in _assign_pairs(s) if norm(t) == 'self.route_hits']
+    ok = len(asg) == 1 and isinstance(Ls.resolve(asg[0][1], asg[0][0]), (ast.Call, ast.Dict, ast.DictComp)) and \
+        cfg_rs.must_pass(cfg_rs.nodes_of(asg[0][0]), cfg_rs.entry, cfg_rs.exit)
     rep.check('R19.b', fkey(rs, 'self.route_hits'), ok, 'reset() rebinds route_hits to a freshly constructed mapping' if ok else
               'reset() does not rebind route_hits to a fresh mapping', st, rs.node)
     init = st.func('StatsMiddleware.__init__')
-    ok = any(isinstance(c, ast.Call) and norm(c.func) == 'self.reset' for c in walk_body(init.node))
-    rep.check('R19.b', fkey(init, 'reset()'), ok, 'constructor initialises through reset()' if ok else
+    cfg_i = cfg_of(init)
+    Lin = diffcon.Locals(init.node, cfg_i)
+    starts = [stmt_of(st, c) for c in walk_body(init.node) if isinstance(c, ast.Call) and norm(c.func) == 'self.reset'] + \
+        [s for s in stmts_of(init.node) for t, v in _assign_pairs(s) if norm(t) == 'self.route_hits'
+         and isinstance(Lin.resolve(v, s), (ast.Call, ast.Dict, ast.DictComp))]
+    ok = bool(starts) and cfg_i.must_pass(cfg_i.nodes_of_all(starts), cfg_i.entry, cfg_i.exit)
+    rep.check('R19.b', fkey(init, 'reset()'), ok, 'constructor initialises the counters (through reset() / a fresh mapping)' if ok else
               'constructor no longer initialises the counters through reset()', st, init.node)
 
 
@@ -237,6 +253,7 @@ def _reported_count(rep, repo, st):
 
 # ---- R19.c ---------------------------------------------------------------------------------------------------------
 DATA, LEN, CAP = 'self._data', 'len(self._data)', 'self._cap'
+MUTATORS = {'append', 'insert', 'extend', 'pop', 'remove', 'clear', 'sort', 'reverse', '__setitem__', '__delitem__'}
 
 
 def _reservoir_add(rep, repo, st):
@@ -253,13 +270,25 @@ def _reservoir_add(rep, repo, st):
               'total count is not incremented exactly once per add(): %s' % (why or 'other writes to _total_count'), st, add_f.node)
     val_param = [p for p in add_f.params() if p != 'self'][0]
     n_writes = 0
+    # every write to the store (the facts about len(_data) that bound a write are stale once another write ran before it)
+    w_stmts = _uniq([stmt_of(st, c) for c in walk_body(add_f.node) if isinstance(c, ast.Call) and isinstance(c.func, ast.Attribute)
+                     and c.func.attr in MUTATORS and La.text(c.func.value, stmt_of(st, c)) == DATA] +
+                    [s for s in stmts_of(add_f.node) if isinstance(s, (ast.Assign, ast.AugAssign, ast.Delete)) and
+                     any(isinstance(t, ast.Subscript) and La.text(t.value, s) == DATA
+                         for t in (s.targets if not isinstance(s, ast.AugAssign) else [s.target]))])
+    w_nodes = set(cfg_a.nodes_of_all(w_stmts))
+
+    def fresh(node_stmt):
+        """no other write to _data can run before this one"""
+        mine = set(cfg_a.nodes_of(node_stmt))
+        return not (mine & cfg_a.reach([m for w in w_nodes - mine for m in cfg_a.succ[w]]))
     for c in walk_body(add_f.node):
         if isinstance(c, ast.Call) and call_tail(c) in ('append', 'insert', 'extend') and isinstance(c.func, ast.Attribute) \
                 and La.text(c.func.value, stmt_of(st, c)) == DATA:
             n_writes += 1
             cs = La.conds(conds(add_f, c), st)
             facts = diffcon.facts_from_conds(cs)
-            ok = call_tail(c) == 'append' and diffcon.entails(facts, (LEN, CAP, True))
+            ok = call_tail(c) == 'append' and diffcon.entails(facts, (LEN, CAP, True)) and fresh(stmt_of(st, c))
             rep.check('R19.c', fkey(add_f, '%s.append(%s)' % (DATA, ', '.join(norm(a) for a in c.args))), ok,
                       'append is entailed below capacity: %s |- len(_data) < _cap' % '; '.join(cond_texts(cs)) if ok else
                       'growth of _data is not bounded by its path condition (%s does not entail len(self._data) < self._cap): '
@@ -274,7 +303,7 @@ def _reservoir_add(rep, repo, st):
             idx = norm(idx_e)
             cs = La.conds(conds(add_f, s), st)
             facts = diffcon.facts_from_conds(cs)
-            ok = diffcon.entails(facts, (idx, LEN, True))
+            ok = diffcon.entails(facts, (idx, LEN, True)) and fresh(s)
             rep.check('R19.c', fkey(add_f, '%s[%s] = %s' % (DATA, norm(s.targets[0].slice), norm(s.value))), ok,
                       'indexed store is entailed in-bounds: %s |- %s < len(_data)' % ('; '.join(cond_texts(cs)), idx) if ok else
                       'indexed store self._data[%s] is not entailed in-bounds by its path condition (%s): IndexError possible '
@@ -366,17 +395,59 @@ def _reservoir_rest(rep, repo, st):
     rep.check('R19.c', fkey(tc), bool(ok), 'total_count reports _total_count' if ok else 'total_count does not report _total_count', st, tc.node)
     it = st.func('Reservoir.__iter__')
     Lit = diffcon.Locals(it.node, cfg_of(it))
-    ok = returns_of(it) and all(isinstance(r.value, ast.Call) and call_name(r.value) == 'iter' and len(r.value.args) == 1
-                                and Lit.text(r.value.args[0], r) == DATA for r in returns_of(it))
+    over = lambda e, s_: Lit.text(e, s_) == DATA
+    rets_it = [r for r in returns_of(it) if r.value is not None]
+    yields = [n for n in walk_body(it.node) if isinstance(n, (ast.Yield, ast.YieldFrom))]
+    if yields:
+        # generator spelling: ``yield from self._data`` / ``for v in self._data: yield v`` and nothing else
+        ok = not rets_it
+        for y in yields:
+            ys = stmt_of(st, y)
+            if isinstance(y, ast.YieldFrom):
+                ok = ok and (over(y.value, ys) or (isinstance(y.value, ast.Call) and call_name(y.value) == 'iter' and len(y.value.args) == 1
+                                                   and over(y.value.args[0], ys)))
+            else:
+                loop = st.parents.get(ys)
+                ok = ok and isinstance(loop, ast.For) and len(loop.body) == 1 and not loop.orelse and over(loop.iter, loop) and \
+                    isinstance(loop.target, ast.Name) and isinstance(y.value, ast.Name) and y.value.id == loop.target.id
+    else:
+        ok = rets_it and all(isinstance(r.value, ast.Call) and call_name(r.value) == 'iter' and len(r.value.args) == 1
+                             and over(r.value.args[0], r) for r in rets_it)
     rep.check('R19.c', fkey(it), bool(ok), 'iteration is over _data' if ok else 'iteration is not over _data', st, it.node)
     # subclass delegates exactly once
     sub = st.func('RouteStatReservoir.add')
     cfg_s = cfg_of(sub)
-    sup = [stmt_of(st, c) for c in walk_body(sub.node) if isinstance(c, ast.Call) and call_tail(c) == 'add'
-           and isinstance(c.func.value, ast.Call) and call_name(c.func.value) == 'super']
+    bases = set(c.name if hasattr(c, 'name') else str(c) for c in repo.mro(sub.cls)[1:]) if sub.cls is not None else set()
+    selfname = sub.node.args.args[0].arg if sub.node.args.args else 'self'
+    sup = [stmt_of(st, c) for c in walk_body(sub.node) if isinstance(c, ast.Call) and call_tail(c) == 'add' and isinstance(c.func, ast.Attribute)
+           and ((isinstance(c.func.value, ast.Call) and call_name(c.func.value) == 'super') or
+                (isinstance(c.func.value, ast.Name) and c.func.value.id in bases and c.args and norm(c.args[0]) == selfname))]
     ok, why = _exactly_once(cfg_s, cfg_s.nodes_of_all(sup), [cfg_s.entry], [cfg_s.exit])
     rep.check('R19.c', fkey(sub, 'super().add'), ok, 'RouteStatReservoir.add delegates to Reservoir.add exactly once' if ok else
               'RouteStatReservoir.add: ' + why, st, sub.node)
+
+
+def _uniq(xs):
+    out = []
+    for x in xs:
+        if x is not None and not any(x is y for y in out):
+            out.append(x)
+    return out
+
+
+def _assign_pairs(s):
+    """[(target, value)] of an assignment statement; ``a, b = x, y`` gives both pairs."""
+    out = []
+    if isinstance(s, ast.Assign):
+        for t in s.targets:
+            if isinstance(t, (ast.Tuple, ast.List)) and isinstance(s.value, (ast.Tuple, ast.List)) and len(t.elts) == len(s.value.elts) \
+                    and not any(isinstance(e, ast.Starred) for e in t.elts + s.value.elts):
+                out.extend(zip(t.elts, s.value.elts))
+            else:
+                out.append((t, s.value))
+    elif isinstance(s, ast.AnnAssign) and s.value is not None:
+        out.append((s.target, s.value))
+    return out
 
 
 def _reported_values(repo, fi, depth=0):
